@@ -14,7 +14,7 @@
    Exact specification arithmetic: [period_start] / [period_end] = first slot of the fork-clamped
    period of [epoch] / first slot after it; [spec_first] = max(period_start - 1, now) with the
    subtraction saturating at slot 0; [spec_last] = period_end - 2 (the slot before the last). *)
-From Verif Require Import Lib.Base Model.C15_Sync Proofs.C15 Proofs.C15_Fire.
+From Verif Require Import Lib.Base Model.C15_Sync Check.C15 Proofs.C15 Proofs.C15_Fire Proofs.C15_Check.
 
 (* ------------------------------------------------------------------------------------------- *)
 (* C15_window.  For every chain (slots per epoch, epochs per period, fork epoch), every epoch
@@ -245,6 +245,34 @@ Theorem C15_contribution_complete :
     /\ o_agg_job (fire p mem acct f) = Some (aggregate_time p (f_slot f)).
 Proof. exact contribution_complete. Qed.
 Print Assumptions C15_contribution_complete.
+
+(* ------------------------------------------------------------------------------------------- *)
+(* The boolean predicate the check evaluates on the OBSERVED outputs of the implementation
+   (Check.C15.P_b) is sound for the statements above: a case that passes it has the job table of
+   C15_schedule_jobs and, for every fired slot, a payload that is sound and complete in the sense
+   of C15_message_every_slot (nothing outside the window). *)
+Theorem C15_check_predicate_sound :
+  forall c,
+    P_b c = true -> chain_ok (c_par c) -> (0 <= slot_ns (c_par c))%Z ->
+    let p := c_par c in let i := c_in c in
+    (forall k s t, In (k, s, t) (so_jobs (c_out c)) <->
+       ready p i /\ k = JPrepare /\ t = prepare_time p s
+       /\ spec_first p (si_epoch i) (si_cur i) <= s <= spec_last p (si_epoch i)
+       /\ (si_notcur i = true -> s <> si_cur i))
+    /\ NoDup (so_jobs (c_out c))
+    /\ length (c_fouts c) = length (c_fires c)
+    /\ forall k f o, nth_error (c_fires c) k = Some f -> nth_error (c_fouts c) k = Some o -> ready p i ->
+         (~ in_window p i (f_slot f) -> opt_list (o_submitted o) = [])
+         /\ (in_window p i (f_slot f) -> forall r, f_root f = Some r ->
+             (forall s' r' v x, In (s', r', v, x) (opt_list (o_submitted o)) ->
+                s' = f_slot f /\ r' = r /\ has_duty i v /\ holds_account i v /\ x = SgRoot v (f_slot f / spe p) r)
+             /\ NoDup (map msg_validator (opt_list (o_submitted o)))
+             /\ (f_sel_err f = false -> f_root_err f = false ->
+                 forall v, has_duty i v -> holds_account i v -> ~ In v (f_root_zero f) ->
+                   In (f_slot f, r, v, SgRoot v (f_slot f / spe p) r) (opt_list (o_submitted o)))
+             /\ (f_sel_err f = false -> o_msg_job o = Some (message_time p (f_slot f)))).
+Proof. exact P_b_sound. Qed.
+Print Assumptions C15_check_predicate_sound.
 
 (* ------------------------------------------------------------------------------------------- *)
 (* Non-vacuity. *)
